@@ -20,8 +20,14 @@ func H_C10_Crash() {
 	power := vParam("power") == 1
 	segs := []int64{4096, 60}
 	seg := segs[vChoose(vParam("nseg"))]
-	txs := genTxs(vParam("profile"), vParam("ntx"), vParam("maxops"))
-	keys := kvKeysOf(txs)
+	// pre > 0: concrete one-record transactions first, so that file ids reach two digits
+	preT := preTxs(vParam("pre"), false)
+	symT := genTxs(vParam("profile"), vParam("ntx"), vParam("maxops"))
+	txs := append(append([][]*sOp{}, preT...), symT...)
+	keys := append(kvKeysOf(preT[:min1(len(preT))]), kvKeysOf(symT)...)
+	if len(preT) > 0 {
+		seg = 60 // one record per data file
+	}
 	structs := mode == HintKeyValAndRAMIdxMode
 
 	// twin: no crash
